@@ -8,6 +8,7 @@
 //! exit:  0 held / 1 violation (VIOLATION line) / 2 could not decide
 
 mod common;
+mod dhw;
 mod dom;
 mod engine;
 mod fgen;
@@ -46,11 +47,14 @@ registry! {
     "C04" => props::c04::C04,
     "C05" => props::c05::C05,
     "C06" => props::c06::C06,
+    "C07" => props::c07::C07,
     "C08" => props::c08::C08,
     "C09" => props::c09::C09,
     "C11" => props::c11::C11,
     "C12" => props::c12::C12,
+    "C13" => props::c13::C13,
     "C14" => props::c14::C14,
+    "C15" => props::c15::C15,
 }
 
 fn main() {
